@@ -13,7 +13,7 @@ from ..oracle import spectrum as O
 LEVEL = "fault_enumeration"
 NEEDS = ["harness", "cli"]
 EXHAUSTIVE = {"quick": True, "thorough": True}
-RULE = ("npy files (1-4 axes, 136-700 bytes, dtypes f8/f4/i4/u2/i8, versions 1-3): every truncation offset 0..len-1 and every extension 1..16 (random, zero "
+RULE = ("npy files (1-4 axes, 136-700 bytes, dtypes f8/f4/i4/u2/i8, versions 1-3): every truncation offset 0..len-1 and every extension 1..16 (random, zero, another npy file or its first bytes, and damaged Fortran-order files, "
         "and whitespace-only bytes), declared shapes that disagree with the number of values incl. products that agree only modulo 2^64, at L for all files and at C (view, fold, stat) for a subset; text files: every single token removal, duplication/insertion "
         "(on the value line and on extra lines), and shape edits that change the product; each damaged input must be REJECTED: Err at L; exit != 0, "
         "empty stdout, no panic at C. Non-trivial: every damaged input; distinct = digest(bytes).")
@@ -100,6 +100,22 @@ def check_npy_extras(S, p):
     rng = rng_for(seed, "c16", p["name"], "extras")
     shape, descr, data = gen_npy(rng)
     damaged = []
+    # what follows the file is itself (the beginning of) an npy file
+    for tail in (data, data[:6], data[:10], data[:16], data[:len(data) // 2], b"\x93NUMPY", b"\x93NUMPY\x01\x00"):
+        damaged.append(("followed by %d bytes starting with the npy magic" % len(tail), data + tail))
+    # a Fortran-ordered file (rejected as it is) cut or extended at value boundaries and elsewhere
+    import numpy as _np, io as _io
+    from numpy.lib import format as _nf
+    fa = _np.asfortranarray(_np.arange(24, dtype="<f8").reshape(rng.choice([(2, 3, 4), (4, 6), (3, 1, 8)])))
+    buf = _io.BytesIO()
+    _nf.write_array(buf, fa, version=(1, 0))
+    fdata = buf.getvalue()
+    off0 = len(fdata) - 24 * 8
+    for cut in sorted({off0, off0 + 8, off0 + 16, len(fdata) - 8, len(fdata) - 16, off0 + 3, len(fdata) - 1} | {rng.randrange(10, len(fdata)) for _ in range(6)}):
+        damaged.append(("Fortran-order file cut to %d of %d bytes" % (cut, len(fdata)), fdata[:cut]))
+    for ext in (8, 16, 24, 1, 5):
+        damaged.append(("Fortran-order file plus %d bytes" % ext, fdata + bytes(rng.randrange(256) for _ in range(ext))))
+    damaged.append(("Fortran-order file, intact (unsupported order)", fdata))
     for n in range(1, 17):
         for fill in WS_FILLS:
             damaged.append(("whitespace extension %d x %r" % (n, fill), data + (fill * n)[:n]))
